@@ -85,6 +85,8 @@ def main():
         names = []
         for g in d['groups']:
             for e in g['entries']:
+                if e['name'] not in LEG and e.get('doc') and len(e['doc']) > 120:
+                    LEG[e['name']] = e['doc']  # legs added from round 9 on carry their prose in the entry itself
                 if e['name'] in LEG and e['name'] not in names:
                     names.append(e['name'])
         base = d['explanation'].split(MARK)[0]
